@@ -80,6 +80,13 @@ class C09(XsProp):
             sel = pairs if thorough else rng.sample(pairs, 700)
             for a, b in sel:
                 cs.append(self.case(['I' + hx(a), 'I' + hx(b)], w))
+        # the full product of the boundary values for every binary word (the sampled grid above can miss a single pair)
+        I_MIN_, I_MAX_ = -(1 << 127), (1 << 127) - 1
+        edge = [I_MIN_, I_MIN_ + 1, -2, -1, 0, 1, 2, I_MAX_ - 1, I_MAX_, 1 << 64, -(1 << 64), (1 << 63) - 1, -(1 << 63)]
+        for w in BIN_INT:
+            for a in edge:
+                for b in edge:
+                    cs.append(self.case(['I' + hx(a), 'I' + hx(b)], w))
         for w in ('bsl', 'bsr'):
             for a in (ig if thorough else rng.sample(ig, 25)):
                 for n in list(range(128)) + [128, 129, 255, 256, -1, 2 ** 64, 2 ** 32]:
